@@ -86,7 +86,16 @@ let () =
   let proto = ref false in
   let phys : (n, n list) Hashtbl.t = Hashtbl.create 16 in
   let rounds = ref 0 and pending : (n * n) list ref = ref [] and clean = ref true in
-  let reset_rounds () = rounds := 0; pending := all_pairs (topo_of !model) in
+  (* ev lines so far, index at which the current round started, stored advertisements (sender -> adv, stamp) *)
+  let evc = ref 0 and round_start = ref 0 and delivered = ref false in
+  let slots : (n, adv_entry list * int) Hashtbl.t = Hashtbl.create 16 in
+  let reset_rounds () = rounds := 0; round_start := !evc; pending := all_pairs (topo_of !model) in
+  let served i j =
+    pending := List.filter (fun (a, b) -> not (N.eqb a i && N.eqb b j)) !pending;
+    if !pending = [] then begin
+      let ps = all_pairs (topo_of !model) in
+      if ps <> [] then begin incr rounds; round_start := !evc; pending := ps end
+    end in
   let diverge f m i = Printf.printf "DIVERGE %d %s %s model=%s impl=%s\n" !lineno !case f m i in
   let oracle w d = Printf.printf "ORACLE %d %s %s %s\n" !lineno !case w d in
   let apply (e : event) (topo_change : bool) =
@@ -94,7 +103,10 @@ let () =
     let before = topo_of !model in
     let (m', d) = step !model e in
     model := m'; last_dirty := d;
-    if topo_change && topo_of m' <> before then reset_rounds () in
+    if topo_change && topo_of m' <> before then begin
+      if !delivered then clean := false;   (* a Deliver before a topology change is part of the history *)
+      reset_rounds ()
+    end in
   (try
     while true do
       let line = input_line stdin in
@@ -103,20 +115,37 @@ let () =
       match String.split_on_char ' ' line with
       | "case" :: k :: kind :: _ ->
           incr ncases; case := k ^ ":" ^ kind; model := []; Hashtbl.reset impl_nb; Hashtbl.reset impl_ent;
-          clean := true; reset_rounds (); proto := (kind = "proto"); Hashtbl.reset phys;
+          clean := true; evc := 0; delivered := false; Hashtbl.reset slots; reset_rounds (); proto := (kind = "proto"); Hashtbl.reset phys;
           Hashtbl.reset tbl_of_dec; Hashtbl.reset tbl_to_dec
       | "node" :: a :: h :: _ -> node_alias a (n_of_dec_raw h)
-      | ["ev"; "rup"; i] -> apply (RouterUp (n_of_dec i)) true
+      | ["ev"; "rup"; i] -> incr evc; apply (RouterUp (n_of_dec i)) true
       | ["ev"; "rdown"; i] ->
           let i = n_of_dec i in
-          clean := false; Hashtbl.remove impl_nb i; Hashtbl.remove impl_ent i; apply (RouterDown i) true
-      | ["ev"; "up"; i; j] -> apply (NbrUp (n_of_dec i, n_of_dec j)) true
-      | ["ev"; "dead"; i; j] -> clean := false; apply (NbrDead (n_of_dec i, n_of_dec j)) true
+          incr evc; clean := false; Hashtbl.remove impl_nb i; Hashtbl.remove impl_ent i; apply (RouterDown i) true
+      | ["ev"; "up"; i; j] -> incr evc; apply (NbrUp (n_of_dec i, n_of_dec j)) true
+      | ["ev"; "dead"; i; j] -> incr evc; clean := false; apply (NbrDead (n_of_dec i, n_of_dec j)) true
       | ["ev"; "fetch"; i; j] ->
           let i = n_of_dec i and j = n_of_dec j in
+          incr evc;
           apply (Fetch (i, j)) false;
-          pending := List.filter (fun (a, b) -> not (N.eqb a i && N.eqb b j)) !pending;
-          if !pending = [] then begin incr rounds; pending := all_pairs (topo_of !model) end
+          served i j
+      | ["ev"; "snap"; j] ->
+          let j = n_of_dec j in
+          incr evc;
+          (match getr !model j with
+           | Some r -> Hashtbl.replace slots j (advert r.rrib, !evc)
+           | None -> Printf.printf "BADLINE %d snap of a router the model does not have\n" !lineno)
+      | ["ev"; "deliver"; i; j] ->
+          let i = n_of_dec i and j = n_of_dec j in
+          incr evc;
+          (match Hashtbl.find_opt slots j with
+           | None -> Printf.printf "BADLINE %d deliver without snapshot\n" !lineno
+           | Some (adv, stamp) ->
+               delivered := true;
+               apply (Deliver (i, j, adv)) false;
+               (* a round may only use advertisements generated within it (Conv.around); an older one voids the count *)
+               if stamp < !round_start then begin clean := false; reset_rounds () end
+               else served i j)
       | ["obs"; i; d; nb; rib; adv; ent] ->
           let i = n_of_dec i in
           let nb = split_field "nb=" nb and rib = split_field "rib=" rib
